@@ -78,8 +78,9 @@ def run_case(cs):
             for f in sorted(sealed_now):
                 extra += ["-sf", os.path.join(root, f)]
             had_sf = True
-        elif g > 0 and rng.random() < 0.15:
-            extra += ["-i", "*.never"]
+        elif g > 0 and rng.random() < 0.2:
+            # a pattern that arrives later and covers files which earlier generations recorded
+            extra += ["-i", rng.choice(["*.never", "*.tmp", "*.bin", "*.txt", "*.mov"])]
             pat_later = True
         fm = world.gen_formats(rng)
         r = drive.run("create", [root] + world.fmt_args(fm) + extra)
@@ -174,7 +175,12 @@ def run_case(cs):
             cs.violation("verify-pl-unchanged-nonzero", {"kind": "verify-pl", "exit": r.exit, "history_had_failed": had_failed, "sf": had_sf}, {**ctx, "out": r.text[-400:]})
     else:
         cs.skip("verify-pl-unrecorded-file-on-disk")
-    victim = rng.choice(sorted(want)) if want else None
+    # a file that the (latest) patterns cover is ignored by verify -pl, altering it proves nothing
+    from ..oracle import ignoreref
+
+    eff = ms[-1][2]["processinfo"]["ignore"] or list(ignoreref.DEFAULTS)
+    cand = sorted(pth for pth in want if ignoreref.match(eff, pth) is False)
+    victim = rng.choice(cand) if cand else None
     if victim and os.path.exists(os.path.join(root, victim)):
         with open(os.path.join(root, victim), "ab") as fh:
             fh.write(b"!")
